@@ -135,7 +135,7 @@ PROPS = {
             "absorbed_upper": "a.wf → b.wf → isSubset b a → admits (merger a b) x → admits a x",
         },
         "partial": ["the property's last clause (size bounded by the structural variety of the sources) is proved in the form it is quantified: the shape, hence its size, does not depend on the number of repetitions (size_independent_of_repetitions); no closed-form bound in terms of variety is claimed"],
-        "rule": "p_c09: for every history (all sequences of length <= 2 over 19 fixed documents + random histories of 1-5 documents) and every document d of it, d is re-fed k=4 (thorough: 16) times; the shape must be identical from the first repetition on, and the printed shapes are compared with the base shape by witnesses of the reference semantics in both directions; plus subset/merger/p_keeps on reachable (sample, accumulator, sample) triples. p_cycle: groups of 2-3 documents (all ordered pairs of 25 fixed documents, at top level, below a member and inside a tuple; random groups) are fed 2, 4, 8 and 16 times in turn, and the printed size of the resulting shape must not keep growing (size(4) < size(8) < size(16) is a failure). Non-trivial = history with a container. Third session: plus n equal sources and one differing (n = 8..33). Also: position histories with every document re-fed (p_c09, p_cycle), long histories with two different records and one background record re-added k times (p_readd). Every run also uses the source dictionary (string and integer literals of the library's non-test source as member names / values / texts / collection names and as sizes n-1, n, n+1) and repeats the whole operation list in reverse order in fresh processes, with env-var-like literals set, reporting answers that differ (hidden state).",
+        "rule": "p_c09: for every history (all sequences of length <= 2 over 19 fixed documents + random histories of 1-5 documents) and every document d of it, d is re-fed k=4 (thorough: 16) times; the shape must be identical from the first repetition on, and the printed shapes are compared with the base shape by witnesses of the reference semantics in both directions; plus subset/merger/p_keeps on reachable (sample, accumulator, sample) triples. p_reorder (fourth session, the run-time instance of readd_any): for every group p_cycle uses, the sources are followed by themselves reversed, in order, and the first once more; from_sources must succeed and the shape must admit the same witnesses as the base shape in both directions. p_cycle: groups of 2-3 documents (all ordered pairs of 25 fixed documents, at top level, below a member and inside a tuple; random groups) are fed 2, 4, 8 and 16 times in turn, and the printed size of the resulting shape must not keep growing (size(4) < size(8) < size(16) is a failure). Non-trivial = history with a container. Third session: plus n equal sources and one differing (n = 8..33). Also: position histories with every document re-fed (p_c09, p_cycle), long histories with two different records and one background record re-added k times (p_readd). Every run also uses the source dictionary (string and integer literals of the library's non-test source as member names / values / texts / collection names and as sizes n-1, n, n+1) and repeats the whole operation list in reverse order in fresh processes, with env-var-like literals set, reporting answers that differ (hidden state).",
         "assumptions": [],
         "level_text": "converge is a Lean theorem over all histories and all k: re-adding a source keeps the meaning (meaningEq) and the shape is literally stable from the first repetition; readd_any extends the meaning clause to any sequence of already-seen sources in any order and multiplicity (fourth session). It composes samples_accepted (C03) with absorb_stable and absorbed_upper, both proved for all well-formed shapes by induction over merger's arms. Only closes on the code after the D6/D7 repairs. merger, is_subset, from_sources are compared with the real code on the reachable domain each run, and stability/meaning are re-evaluated on the real from_sources.",
         "level_note": "Trusted: Lean kernel; models of merger.rs, subset.rs, shape/mod.rs (differential testing); reference semantics for the meaning comparison (witness search is testing).",
@@ -482,7 +482,7 @@ def oracle(pid, ops, impl, tier):
     if pid == "C09":
         for o, r in zip(ops, impl):
             f = o.split("\t")
-            if f[0] in ("p_c09", "p_readd") and r.startswith("ok "):
+            if f[0] in ("p_c09", "p_readd", "p_reorder") and r.startswith("ok "):
                 shapes = [x.replace("_", " ") for x in r[3:].split(" ")]
                 base = shapes[0]
                 for sh in shapes[1:]:
